@@ -18,7 +18,7 @@ RULE = ("E1: ('core', len, zrun, decl, sink, cmac) = full product of every paylo
         "the writer accepted the file and the reader was run on its output."
         " Added families: ('repeat', pattern, ...) the SAME component object (or equal copies) at several positions of the component list; the tag alphabet carries the encryption tag id with values that are not the one-byte 02; default-constructed objects are checked to be empty after every history.")
 ASSUMPTIONS = [
-    "components are plain (encrypted components are C06); an ENC tag with value 02 on a plain component is excluded as inconsistent",
+    "components are plain (encrypted components are C06); an ENC tag with value 02 on a plain component is part of the alphabet and is a recorded finding (known_findings.json)",
     "a writer that refuses a file within the 255-byte entry limit is reported (the property quantifies over all such files)",
 ]
 
@@ -52,6 +52,9 @@ TAGS = [
     [(0xC2, b"")],
     [(0xC2, b"\x01")],
     [(0xC2, b"\x03"), (0xC3, b"\x02")],
+    # the encryption tag WITH the value 02 on a component that is not flagged for encryption: the writer stores the payload in
+    # the clear, the reader decrypts it (known finding: two independent markers)
+    [(0xC2, b"\x02")],
 ]
 TAGS_OVER = {8, 9}
 LENS = [1, 2, 15, 16, 17, 31, 32, 33, 39, 40, 41, 79, 80, 81, 256, 1000]
@@ -185,6 +188,20 @@ def model_of(ctx, case):
 
 
 def run_case(ctx, case):
+    o = run_case_inner(ctx, case)
+    if case[0] == "dev":
+        comps = model_of(ctx, case)[1]
+        if any((0xC2, b"\x02") in c["tags"] and not c["enc"] for c in comps) and o.viols:
+            # every way this input goes wrong (rejected with ValueError, content / flag read differently, re-write differs) is the
+            # one recorded finding; a file without such a component is never folded into it
+            o2 = Outcome("enc-tag-on-plain-component", True)
+            o2.viol("read|enc-tag-02-on-plain-component", "a plain component (not flagged for encryption) whose description carries tag C2 = 02 "
+                    "is written in the clear and read back as if encrypted: %s" % o.viols[0][1])
+            return o2
+    return o
+
+
+def run_case_inner(ctx, case):
     if case[0] == "hist":
         return run_history(ctx, case[1:])
     comments, comps, key, sink, check_cmac, over = model_of(ctx, case)
